@@ -18,8 +18,9 @@ Structural clauses decided (cardillo/math/rotations.py, algebra.py), by scaling-
                          signs); P_dot = T_inv w is half the product P o (0, w), so T_inv repeats quatprod's vector part; the
                          spin identity R_dot = R skew(w) at second order in p ties that sign to the sign of p0 skew(p) in the
                          rotation matrix; the same second-order expansion of R(P o Q) = R(P) R(Q) ties quatprod's cross term to it.
- R4 normalisation used   on the normalising path the division is by P @ P (degree 2), the only normaliser under which the
-                         degree-2 Rodrigues numerator becomes scale free
+ R4 total normalisation   every division on the normalising path is by an expression that is provably positive for every nonzero P (P @ P,
+                         p0*p0 + p@p, norm(P), 1 + x@x, products / powers / locals of such): "for every nonzero quaternion"; a division by
+                         p0 alone (Cayley / Rodrigues-parameter form) is undefined on the half turns
 """
 from __future__ import annotations
 
@@ -44,7 +45,7 @@ def run(ctx):
     rep.rule("C01.R1", "Exp_SO3_quat is scale free on the normalising path", 1)
     rep.rule("C01.R2", "degree relations of tangent maps and stated derivatives", 5)
     rep.rule("C01.R3", "bilinearity of quatprod and degrees of the algebra helpers", 8)
-    rep.rule("C01.R4", "normaliser is P @ P", 3)
+    rep.rule("C01.R4", "every division on the normalising path is by a form that is positive for every nonzero quaternion (the maps are total on R^4 without 0)", 3)
     rep.rule("C01.R5", "orientation convention shared by quatprod, T_SO3_quat, T_SO3_inv_quat and Exp_SO3_quat (signed expansion)", 5)
     rot, alg = ctx.repo.module(ROT), ctx.repo.module(ALG)
     fns = {}
@@ -93,7 +94,7 @@ def run(ctx):
     for (a, b) in ((1, 0), (1, 1)):
         check("C01.R3", "cross3", {"a": F(a), "b": F(b)}, {}, F(a + b), f"cross product is bilinear (da={a}, db={b})")
     orientation(ctx, fns)
-    # R4 normaliser
+    # R4 normaliser: total on R^4 without 0
     for name in ("Exp_SO3_quat", "T_SO3_quat", "Exp_SO3_quat_P", "T_SO3_quat_P"):
         fn = fns[name]
         ifs = [n for n in ast.walk(fn) if isinstance(n, ast.If) and norm_src(n.test) == "normalize"]
@@ -101,11 +102,74 @@ def run(ctx):
         if not ifs:
             rep.bad("C01.R4", C, "if normalize:", "the normalising branch vanished", f"{ROT}:{fn.lineno}")
             continue
-        src = " ".join(norm_src(s) for s in ifs[0].body)
-        if "P @ P" in src:
-            rep.ok("C01.R4", C, f"normalising branch divides by P @ P: {norm_src(ifs[0].body[0])}")
-        else:
-            rep.bad("C01.R4", C, ifs[0].body[0], "the normalising branch does not use P @ P", f"{ROT}:{ifs[0].lineno}")
+        loc = {n.targets[0].id: n.value for n in ast.walk(fn) if isinstance(n, ast.Assign) and len(n.targets) == 1 and isinstance(n.targets[0], ast.Name)}
+        dens = []
+        for st in ifs[0].body:
+            for w in ast.walk(st):
+                if isinstance(w, ast.BinOp) and isinstance(w.op, ast.Div):
+                    dens.append(w.right)
+                if isinstance(w, ast.AugAssign) and isinstance(w.op, ast.Div):
+                    dens.append(w.value)
+        # denominators reached through locals defined in the branch (P2_inv = 1 / (P @ P))
+        if not dens:
+            rep.bad("C01.R4", C, ifs[0].body[0], "the normalising branch divides by nothing: the map cannot be scale free", f"{ROT}:{ifs[0].lineno}")
+            continue
+        for d in dens:
+            v = _definite(d, loc)
+            if v:
+                rep.ok("C01.R4", C, f"normalising branch divides by `{norm_src(d)}`, positive for every nonzero P ({v})")
+            else:
+                rep.bad("C01.R4", C, d, f"the normalising branch divides by `{norm_src(d)}`, which is not a positive definite form of the quaternion (it vanishes for nonzero P, e.g. on "
+                        "p0 = 0): the rotation map is not defined for every nonzero quaternion", f"{ROT}:{d.lineno}")
+
+
+def _definite(d, loc, depth=0):
+    """reason string when expression d is provably > 0 for every nonzero P = (p0, p); None otherwise.
+    P @ P, norm(P)**2, p0*p0 + p@p (all components squared), 1 + x@x, products / powers of such, locals bound to such."""
+    if depth > 5:
+        return None
+    t = norm_src(d)
+    if isinstance(d, ast.BinOp) and isinstance(d.op, ast.MatMult) and norm_src(d.left) == norm_src(d.right) == "P":
+        return "P @ P"
+    if isinstance(d, ast.Call) and (dotted(d.func) or "").split(".")[-1] in ("norm", "sqrt") and d.args:
+        a = d.args[0]
+        if norm_src(a) == "P" or _definite(a, loc, depth + 1):
+            return "norm of P"
+    if isinstance(d, ast.BinOp) and isinstance(d.op, ast.Pow) and isinstance(d.right, ast.Constant) and isinstance(d.right.value, (int, float)):
+        return _definite(d.left, loc, depth + 1)
+    if isinstance(d, ast.BinOp) and isinstance(d.op, (ast.Mult,)):
+        l, r = _definite(d.left, loc, depth + 1), _definite(d.right, loc, depth + 1)
+        if l and r:
+            return f"product of ({l}) and ({r})"
+        if l and isinstance(d.right, ast.Constant) and d.right.value > 0 or r and isinstance(d.left, ast.Constant) and d.left.value > 0:
+            return l or r
+    if isinstance(d, ast.BinOp) and isinstance(d.op, ast.Add):
+        parts = []
+        def flat(e):
+            if isinstance(e, ast.BinOp) and isinstance(e.op, ast.Add):
+                flat(e.left); flat(e.right)
+            else:
+                parts.append(e)
+        flat(d)
+        sq = set()
+        pos_const = False
+        for e in parts:
+            if isinstance(e, ast.Constant) and isinstance(e.value, (int, float)) and e.value > 0:
+                pos_const = True
+            elif isinstance(e, ast.BinOp) and isinstance(e.op, (ast.Mult, ast.MatMult)) and norm_src(e.left) == norm_src(e.right):
+                sq.add(norm_src(e.left))
+            elif isinstance(e, ast.BinOp) and isinstance(e.op, ast.Pow) and isinstance(e.right, ast.Constant) and e.right.value == 2:
+                sq.add(norm_src(e.left))
+            else:
+                return None
+        if pos_const:
+            return "positive constant plus squares"
+        if {"p0", "p"} <= sq or "P" in sq:
+            return "sum of the squares of all components"
+        return None
+    if isinstance(d, ast.Name) and d.id in loc:
+        return _definite(loc[d.id], loc, depth + 1)
+    return None
 
 
 def _ret(fn):
@@ -230,7 +294,15 @@ MUTANTS += [
     dict(id="c01-r5-4", what="quatprod: scalar part p0 q0 + p.q", file=ROT, old="    z0 = p0 * q0 - p @ q", new="    z0 = p0 * q0 + p @ q", expect="C01.R5"),
     dict(id="c01-r5-5", what="quatprod: cross3(q, p)", file=ROT, old="    z = p0 * q + q0 * p + cross3(p, q)", new="    z = p0 * q + q0 * p + cross3(q, p)", expect="C01.R5"),
 ]
+MUTANTS += [
+    dict(id="c01-r4-seed", canary=True, what="[seeded by sub-agent] Exp_SO3_quat in Cayley form p / p0 (undefined for quaternions with zero scalar part)", file=ROT,
+         old="    matrix = 2 * (p0 * ax2skew(p) + ax2skew_squared(p))\n    if normalize:\n        matrix /= P @ P\n    return eye3 + matrix",
+         new="    if normalize:\n        g = p / p0\n        return eye3 + 2 / (1 + g @ g) * (ax2skew(g) + ax2skew_squared(g))\n    return eye3 + 2 * (p0 * ax2skew(p) + ax2skew_squared(p))", expect=["C01.R4", "C01.R1"]),
+]
 NEUTRAL = [
+    dict(id="c01-n-r4", what="Exp_SO3_quat normalises with p0*p0 + p@p", file=ROT,
+         old="    matrix = 2 * (p0 * ax2skew(p) + ax2skew_squared(p))\n    if normalize:\n        matrix /= P @ P\n    return eye3 + matrix",
+         new="    matrix = 2 * (p0 * ax2skew(p) + ax2skew_squared(p))\n    if normalize:\n        matrix /= p0 * p0 + p @ p\n    return eye3 + matrix"),
     dict(id="c01-n-r5", canary=True, what="quatprod: vector part with the block p0 I + skew(p)", file=ROT,
          old="    z = p0 * q + q0 * p + cross3(p, q)", new="    z = q0 * p + (p0 * eye3 + ax2skew(p)) @ q"),
     dict(id="c01-n-r5b", what="quatprod: - cross3(q, p)", file=ROT, old="    z = p0 * q + q0 * p + cross3(p, q)", new="    z = p0 * q + q0 * p - cross3(q, p)"),
